@@ -212,6 +212,14 @@ func judge(ex *execution) Verdicts {
 		}
 	default:
 		v.C01.Classes = []string{"no_collision", kindClass}
+		// second sentence of C01: where the request succeeds, a value one plugin set for a
+		// container's field is never silently replaced by another plugin's value
+		if ex.err == nil {
+			if d := replacedUpdateValue(ex, e); d != "" {
+				v.C01.Fail = d
+				v.C01.NonTrivial = true
+			}
+		}
 	}
 
 	// ---------------- C02 ----------------
@@ -285,6 +293,36 @@ func judge(ex *execution) Verdicts {
 		v.C05.Classes = append(v.C05.Classes, kindClass)
 	}
 	return v
+}
+
+// replacedUpdateValue looks for a collected update whose field carries a value other than the
+// one its single owner (by the model) wrote, although that owner's update was committed.
+func replacedUpdateValue(ex *execution, e *Expect) string {
+	for _, u := range ex.updates() {
+		if u == nil {
+			continue
+		}
+		sym := ex.id.sym(u.ContainerId)
+		want := e.Updates[sym]
+		got, _ := resFields(u.GetLinux().GetResources())
+		for _, f := range sortedKeys(want) {
+			g, ok := got[f]
+			if !ok || g == want[f] {
+				continue
+			}
+			// is it some plugin's value for that field? (the runtime's own requested value
+			// showing through is C05's business)
+			for _, s := range ex.c.Chain {
+				for _, up := range s.Updates {
+					if has(up.Fields, f) && g == expectedResValue(f, famW(fieldFam(f), up.ValOf, s.Plugin+1, false)) {
+						return fmt.Sprintf("no conflict was reported, yet %s.%s carries %q (the value plugin p%d wrote in an update of %s) instead of its owner's %q",
+							sym, f, g, s.Plugin, up.Target, want[f])
+					}
+				}
+			}
+		}
+	}
+	return ""
 }
 
 func protoText(m proto.Message) string {
